@@ -147,7 +147,7 @@ func c18GenOps(T *Tape, sc *sharedCodecs, task int, n int, fo *c18Focus) []share
 			if sc.frameNames[ci] == "snappy" && !v.SupportsCompression(primitive.CompressionSnappy) {
 				ci = 0
 			}
-			f := GenFrame(T, GenOpts{Version: v, Requests: T.Bool("req", 0.5), Responses: true, MaxBytes: 3000, BigChance: 0.2, Compressible: T.Bool("compressible", 0.5), HeaderFlags: true}, int16(1+T.Draw("stream", 100)))
+			f := GenFrame(T, GenOpts{Version: v, Requests: T.Bool("req", 0.5), Responses: true, MaxBytes: c18MaxBytes(T, fo), BigChance: 0.2, Compressible: T.Bool("compressible", 0.5), HeaderFlags: true}, int16(1+T.Draw("stream", 100)))
 			if ci != 0 && (T.Bool("compressflag", 0.7) || fo.kind == 1) {
 				markCompressed(T, f)
 			}
@@ -558,4 +558,16 @@ func canon(v reflect.Value) string {
 		return v.Type().String() + "{" + strings.Join(parts, " ") + "}"
 	}
 	return fmt.Sprintf("%v", v.Interface())
+}
+
+// c18MaxBytes: mostly small fields; now and then fields beyond 4 KiB and 64 KiB (sizes at which a
+// decoder may switch to another buffer strategy and leave state behind for the calls that follow).
+func c18MaxBytes(T *Tape, fo *c18Focus) int {
+	switch T.DrawP("maxbytes", 3, 0.6) {
+	case 1:
+		return 12000
+	case 2:
+		return 90000
+	}
+	return 3000
 }
